@@ -1661,6 +1661,11 @@ class Normalizer:
             return None
         if not stmts:
             return ast.Constant(value=None)
+        memo = _memo_idiom(stmts)
+        if memo is not None:
+            # x = D.get(k); if x is None: x = E; D[k] = x; return x   ->   E   (what a memo returns is what it computes the first time;
+            # whether keeping it is harmless is a question for the effect rules, not for the value)
+            return Subst(env).visit(clone(memo))
         s, rest = stmts[0], stmts[1:]
         if isinstance(s, ast.Pass):
             return self.expr_form(rest, env, budget)
@@ -2709,6 +2714,33 @@ class Normalizer:
             tail = [at(ast.If(test=test, body=[mk(val)], orelse=tail), s)]
         self.stats['lookups'] += 1
         return tail
+
+
+def _memo_idiom(stmts):
+    """`x = D.get(k)` / `if x is None: x = E; D[k] = x` / `return x`  ->  E, else None."""
+    if len(stmts) != 3:
+        return None
+    a, b, c = stmts
+    nm, val = _single_name_assign(a)
+    if nm is None or not (isinstance(val, ast.Call) and isinstance(val.func, ast.Attribute) and val.func.attr == 'get' and len(val.args) == 1
+                          and not val.keywords):
+        return None
+    table, key = val.func.value, val.args[0]
+    if not (isinstance(b, ast.If) and not b.orelse and isinstance(b.test, ast.Compare) and len(b.test.ops) == 1
+            and isinstance(b.test.ops[0], ast.Is) and isinstance(b.test.left, ast.Name) and b.test.left.id == nm
+            and is_const(b.test.comparators[0], None) and len(b.body) == 2):
+        return None
+    n2, e = _single_name_assign(b.body[0])
+    st = b.body[1]
+    if n2 != nm or not (isinstance(st, ast.Assign) and len(st.targets) == 1 and isinstance(st.targets[0], ast.Subscript)
+                        and same(st.targets[0].value, table) and same(st.targets[0].slice, key)
+                        and isinstance(st.value, ast.Name) and st.value.id == nm):
+        return None
+    if not (isinstance(c, ast.Return) and isinstance(c.value, ast.Name) and c.value.id == nm):
+        return None
+    if mentions(nm, [e]):
+        return None
+    return e
 
 
 def _atomic(e) -> bool:
